@@ -122,6 +122,20 @@ func (r *Report) Finish() int {
 				names = append(names, v.Ob.Name)
 			}
 		}
+		// obligations that only exist when something is wrong (a call inside a map-range loop,
+		// a safety condition of a function claimed panic-free) are claimed per function by wildcard
+		for _, fr := range r.Results {
+			if fr.Stale || fr.Contract == nil {
+				continue
+			}
+			if len(fr.Contract.NoMapRange) > 0 {
+				pre := shortOfKey(fr.Key) + "/"
+				if fr.Contract.SubtypeOf != "" {
+					pre += "subtype@" + shortKey(fr.Contract.SubtypeOf) + "/"
+				}
+				names = append(names, pre+"maprange@*")
+			}
+		}
 		sort.Strings(names)
 		os.MkdirAll(filepath.Join(r.Verif, "contracts", "claims"), 0o755)
 		os.WriteFile(filepath.Join(r.Verif, "contracts", "claims", r.Prop+".txt"), []byte(strings.Join(names, "\n")+"\n"), 0o644)
@@ -403,7 +417,7 @@ func (r *Report) writeReplay(dir string, v *Verdict) (string, bool) {
 	rf := replayFile{Property: r.Prop, Obligation: v.Ob.Name, Kind: v.Ob.Kind, Clause: v.Ob.Src, Pos: v.Ob.Pos, Status: v.Status,
 		SMT: v.SMTPath, Runs: v.Runs, Model: v.Model, Values: v.Values}
 	reproduced := false
-	if (v.Status == "failed" || v.Candidate) && v.Model != "" {
+	if v.Status != "discharged" {
 		res := TryReplay(r, v)
 		rf.Replay = res
 		if res != nil && res.Reproduced {
